@@ -28,7 +28,24 @@ that text to the translator through `returns=`.  The elementwise reading that is
 If a function no longer has the expected shape, the fragment is made unfindable and the translator refuses (a broken
 tie for C18).  Not translated (reported): _get_alt_count as a whole and the depth chain of _extract_genotype (None /
 tuple constants, isinstance, np.nan as a value, nested assignment chains), _safesum, _choose_samples / _parse_pedigrees /
-_parse_records (loops, generators, dicts), baf_by_ranges / het_frac_by_ranges / into_ranges (pandas table code)."""
+_parse_records (loops, generators, dicts), baf_by_ranges / het_frac_by_ranges / into_ranges (pandas table code).
+
+Loop ties added later (modules FnVcfGenotype, FnVcfAltCount, FnVcfRecords, FnVarySeries at the end of MODULES; theorems in
+Proofs/FnVcfGenotype.v, FnVcfRecords.v, FnVarySeries.v, restated at the end of Props/C18.v): _extract_genotype and
+_get_alt_count are now translated as WHOLE functions (if / elif chains of assignments, np.nan as a declared optional
+input), _parse_records' two loops as step functions (the try block and the row tuple are opaque ranges), the INFO-only
+genotype as a fragment, into_ranges' series2value as a whole function.  Still not tied: _safesum, _choose_samples /
+_parse_pedigrees (dict / list code), the row tuple of _parse_records (tuples of mixed types, `row += (...)`: pinned by
+tools/genspecs), baf_by_ranges' table pipeline (heterozygous(), add_columns, into_ranges: pandas table code).
+
+Mutations tried on a scratch copy (each breaks the named Proofs file, i.e. an obligation of C18; none survives):
+  FnVcfGenotype  `depth = _safesum(sample["AD"])` -> `... + 1` ; `len(gts) > 1` -> `> 2` ; `gts.pop() == 0` -> `!= 0` ;
+                 `if "DP" in sample:` -> `if "DP" in sample and sample["DP"]:`
+  FnVcfAltCount  `len(sample["AD"]) > 1` -> `> 2` ; the single-entry AD `alt_count = 0.0` -> `np.nan`
+  FnVcfRecords   `alt == "<NON_REF>"` -> `"<*>"` ; `and len(set(record.filter) - {...})` -> `and not len(...)` ;
+                 `skip_reject and record.filter` -> `record.filter` ; the `continue` after `cnt_reject += 1` removed ;
+                 INFO-only `zygosity = 0.0` -> `0.5`
+  FnVarySeries   `len(ser) == 1` -> `== 2` ; `return default` -> `return summary_func(ser)`"""
 import ast, os, sys
 
 VARY = 'cnvlib/vary.py'
@@ -286,5 +303,77 @@ MODULES = {
              params=[("len(sample['AD'])", 'Z', 'ad_len'), ("sample['AD'][1]", 'Q', 'ad_1')],
              fragment={'first': "if len(sample['AD']) > 1", 'last': "if len(sample['AD']) > 1"},
              returns=['alt_count'], ret='Q'),
+    ]),
+    # ---- loop ties (LOOP_TIES_GUIDE): whole decision chains and loop iterations, translated statement by statement ----
+    # _extract_genotype as a whole: the depth chain (FORMAT DP, else the AD sum, else INFO DP, else NaN), the zygosity
+    # chain on the set of GT alleles, the alt count (_get_alt_count's result is an opaque input here; tied below).
+    # Container tests / reads are opaque typed inputs keyed by their source text; a missing value ('.', None) and NaN are
+    # None; `gts.pop() == 0` on a missing allele is False (None == 0).
+    # (Proofs/FnVcfGenotype.v: C18_source_extract_genotype -- = Model/Vcf.v depth_of / zygosity_of / alt_count_of)
+    'FnVcfGenotype': (VCFIO, [
+        dict(name='_extract_genotype', coq='fn_extract_genotype', py_params=['sample', 'record'],
+             params=[("'DP' in sample", 'B', 'has_dp'), ("sample['DP']", 'OZ', 'sample_dp'),
+                     ("'AD' in sample", 'B', 'has_ad'), ("isinstance(sample['AD'], tuple)", 'B', 'ad_is_tuple'),
+                     ("_safesum(sample['AD'])", 'Z', 'ad_sum'),
+                     ("'DP' in record.info", 'B', 'has_info_dp'), ("record.info['DP']", 'OZ', 'info_dp'),
+                     ('np.nan', 'OZ', 'nan'),
+                     ("set(sample['GT'])", 'Z', 'gt_set'), ('len(gts)', 'Z', 'n_distinct'), ('gts.pop()', 'OZ', 'first_allele'),
+                     ('_get_alt_count(sample)', 'OQ', 'alt_count_value')],
+             ret=['OZ', 'Q', 'OQ']),
+    ]),
+    # _get_alt_count as a whole: AD (tuple: second entry, 0.0 when there is only one; scalar: itself), else CLCAD2[1],
+    # else AO (tuple: its sum; scalar: itself when non-zero, else 0.0), else NaN.
+    # (Proofs/FnVcfAltCount.v: C18_source_alt_count -- = Model/Vcf.v alt_count_of on pysam's samples: AD a tuple, no
+    #  CLCAD2 / AO fields)
+    'FnVcfAltCount': (VCFIO, [
+        dict(name='_get_alt_count', coq='fn_get_alt_count', py_params=['sample'],
+             params=[("sample.get('AD') not in (None, (None,))", 'B', 'ad_given'),
+                     ("isinstance(sample['AD'], tuple)", 'B', 'ad_is_tuple'),
+                     ("len(sample['AD'])", 'Z', 'ad_len'), ("sample['AD'][1]", 'OQ', 'ad_1'), ("sample['AD']", 'OQ', 'ad_scalar'),
+                     ("sample.get('CLCAD2') not in (None, (None,))", 'B', 'clcad2_given'), ("sample['CLCAD2'][1]", 'OQ', 'clcad2_1'),
+                     ("'AO' in sample", 'B', 'has_ao'), ("isinstance(sample['AO'], tuple)", 'B', 'ao_is_tuple'),
+                     ("_safesum(sample['AO'])", 'Q', 'ao_sum'), ("sample['AO']", 'OQ', 'ao_scalar'),
+                     ('np.nan', 'OQ', 'nan')],
+             ret='OQ'),
+    ]),
+    # _parse_records: ONE ITERATION of `for record in records:` (the REJECT filter with its counter; the genotype block
+    # -- a try statement -- and the inner loop are opaque ranges whose declared effects are parameters), ONE ITERATION of
+    # the inner `for alt in record.alts:` (the <NON_REF> skip; the row tuple is an opaque range yielding the row id), the
+    # INFO-only genotype of a record without samples (fragment).  (_get_end is tied through tools/fnspecs/formats.py
+    # FnFormatsVcfio: C18_source_get_end.)
+    # (Proofs/FnVcfRecords.v: C18_source_parse_step / C18_source_parse_records / C18_source_real_alts / C18_source_info_geno)
+    'FnVcfRecords': (VCFIO, [
+        dict(name='_parse_records', coq='fn_parse_step', py_params=['records', 'sample_id', 'normal_id', 'skip_reject'],
+             loop=dict(first='for record in records'), carried=[('cnt_reject', 'Z')], yields=['Z'],
+             opaque=[dict(first='if record.samples', last='if record.samples',
+                          assigns=[('depth', 'geno_id'), ('zygosity', 'geno_id'), ('alt_count', 'geno_id'),
+                                   ('n_depth', 'geno_id'), ('n_zygosity', 'geno_id'), ('n_alt_count', 'geno_id')]),
+                     dict(first='for alt in record.alts', last='for alt in record.alts', yields='alt_rows')],
+             params=[('cnt_reject', 'Z'), ('skip_reject', 'B'), ('record.filter', 'B', 'filter_nonempty'),
+                     ('len(record.filter)', 'Z', 'n_filters'),
+                     ("len(set(record.filter) - {'.', 'PASS', 'KEEP'})", 'Z', 'n_bad_filters'),
+                     ("'SOMATIC' in record.info", 'B', 'has_somatic'), ("bool(record.info.get('SOMATIC'))", 'B', 'somatic_set'),
+                     ('record.start', 'Z', 'record_start'), ('record.alts', 'B', 'alts_nonempty'), ('alt_rows', 'Y'),
+                     ('geno_id', 'Z')],
+             ret='Z'),
+        dict(name='_parse_records', coq='fn_alt_step', py_params=['records', 'sample_id', 'normal_id', 'skip_reject'],
+             loop=dict(first='for alt in record.alts'), carried=[], yields=['Z'],
+             opaque=[dict(first='row = (', last='if normal_id', assigns=[('row', 'row_id')])],
+             params=[('alt', 'S'), ('start', 'Z'), ('_get_end(start, alt, record.info)', 'Z', 'end_value'), ('row_id', 'Z')],
+             ret='Y'),
+        dict(name='_parse_records', coq='fn_info_geno', py_params=['records', 'sample_id', 'normal_id', 'skip_reject'],
+             fragment=dict(first='depth = record.info.get(', last="if 'AF' in record.info"),
+             params=[("'DP' in record.info", 'B', 'has_info_dp'), ("record.info.get('DP', 0.0)", 'Q', 'info_dp'),
+                     ("'AF' in record.info", 'B', 'has_af'), ("record.info['AF']", 'Q', 'info_af')],
+             returns=['depth', 'zygosity', 'alt_count'], ret=['Q', 'Q', 'Z']),
+    ]),
+    # intersect.into_ranges.series2value: the value of one range from the hits it overlaps (0: the default; 1: that
+    # value as it is; else the summary function's) -- used by baf_by_ranges / het_frac_by_ranges through into_ranges.
+    # (Proofs/FnVarySeries.v: C18_source_series2value -- = Model/VBaf.v s2v_gen / summary)
+    'FnVarySeries': ('skgenome/intersect.py', [
+        dict(name='into_ranges.series2value', coq='fn_series2value', py_params=['ser'],
+             params=[('len(ser)', 'Z', 'n_hits'), ('default', 'OQ', 'default_value'), ('ser.iat[0]', 'OQ', 'first_hit'),
+                     ('summary_func(ser)', 'OQ', 'summary_value')],
+             ret='OQ'),
     ]),
 }
